@@ -223,6 +223,28 @@ class M(Model):
                 out[w] = cust[int(np.argmax(far))]
         return out
 
+    def _aligned_plan(self, d, w, r):
+        """One working vehicle fills legs greedily (a customer that fits, else back to the depot) and idles at the
+        depot first for exactly as long as it takes to put a depot return on step 2N-1 and the first customer of the
+        next leg on step 2N, the last step the limit allows: the leg boundary coincides with the end of the episode
+        (and of every per-step buffer of 2N entries)."""
+        d, capw, seq = d.copy(), self.C, []
+        while d.sum() > 0 and len(seq) < 4 * self.N:
+            cust = [int(c) for c in np.flatnonzero((d > 0) & (d <= capw)) if c > 0]
+            if cust:
+                c = cust[(r // 7) % len(cust)] if (r >> 4) & 1 else max(cust, key=lambda x: (int(d[x]), -x))
+                capw -= int(d[c])
+                d[c] = 0
+                seq.append(c)
+            elif capw == self.C:
+                break  # a customer that never fits: give up
+            else:
+                capw = self.C
+                seq.append(DEPOT)
+        js = [j for j in range(len(seq) - 1) if seq[j] == DEPOT and seq[j + 1] != DEPOT and self.limit - 2 - j >= 0]
+        k = self.limit - 2 - js[-1] if js else 0
+        return [DEPOT] * k + seq
+
     def solve_action(self, s, r=0):
         """Constructive joint move: every vehicle drives to a legal customer nobody else picked in this step
         (r chooses which; ~1/4 of the time a vehicle goes to the depot instead), or to the depot when no
@@ -247,10 +269,23 @@ class M(Model):
         if T == 0:
             if len(self._variant) > 4096:
                 self._variant.clear()
-            self._variant[key] = (r % 4, (r // 4) % self.V)
+            # a third of the free-play episodes become 'aligned' ones (variant 4, see _aligned_plan)
+            self._variant[key] = (4 if (r % 4 == 2 and (r // 8) % 3 == 0) else r % 4, (r // 4) % self.V)
         var, worker = self._variant.get(key, (sum(key[:64]) % 4, 0))
         if var == 3:
             return np.asarray(self._shuttle(s, d, cap, pos, worker), np.int64)
+        if var == 4:
+            if not hasattr(self, "_aligned"):
+                self._aligned = {}
+            if T == 0:
+                if len(self._aligned) > 4096:
+                    self._aligned.clear()
+                self._aligned[key] = self._aligned_plan(d, worker, r)
+            plan = self._aligned.get(key, [])
+            out = [DEPOT] * self.V
+            if T < len(plan) and (plan[T] == DEPOT or (d[plan[T]] > 0 and d[plan[T]] <= cap[worker])):
+                out[worker] = plan[T]
+            return np.asarray(out, np.int64)
         rnd = self._random_move(d, cap, r)
         if var == 2:
             return np.asarray(rnd, np.int64)
@@ -307,6 +342,29 @@ class M(Model):
         twice = sorted(c for c, n in served.items() if n > 1)
         if twice:
             out.append(("a customer is served more than once", f"customers {twice} routes={routes}"))
+        # the route history the state itself holds (`order`: "the history of each vehicle ... what customer each
+        # vehicle was at each environment step").  Read without assuming which column belongs to which step: each row
+        # is a sequence of nodes in which a 0 is a depot visit; it must describe legs within capacity and must not
+        # serve a customer twice.  (Whether it equals the route driven is a transition matter, not judged here.)
+        order = np.asarray(getattr(s, "order", np.zeros((0, 0)))).astype(np.int64)
+        if order.ndim == 2 and order.shape[0] == V:
+            seen = {}
+            for v in range(V):
+                load, worst = 0, 0
+                for c in order[v].tolist():
+                    if c == DEPOT or not (1 <= c <= N):
+                        load = 0
+                        continue
+                    load += int(d0[c])
+                    worst = max(worst, load)
+                    seen[c] = seen.get(c, 0) + 1
+                if worst > C:
+                    out.append(("recorded route history (state.order): load between two depot visits exceeds capacity",
+                                f"vehicle {v} order={order[v].tolist()} initial demands={d0.tolist()} load={worst} capacity={C}"))
+            twice_o = sorted(c for c, n in seen.items() if n > 1)
+            if twice_o:
+                out.append(("recorded route history (state.order): a customer appears more than once",
+                            f"customers {twice_o} order={order.tolist()}"))
         want = d0.copy()
         for c in served:
             want[c] = 0
